@@ -115,6 +115,10 @@ def run(tier, replay=None):
     mstates, mtrans, mruns = model_check(("Crash", "CrashDyn") if thorough else ("Crash",), timeout=3000)
     rng = random.Random(vlib.seed())
     progs = [p for p in shapes.catalogue() if p["name"] in PROGS[tier]]
+    # file-typed top-level outputs: interruptions during post-processing (files moved to outs/
+    # one by one, the outputs record rewritten last)
+    import pshapes
+    progs += [p for p in pshapes.catalogue() if p["name"] in ("po_plain", "po_arrays")]
     sem, _ = psrun.semantics(progs)
     root = procdrv.build_root()
     base = vlib.scratch("c05")
@@ -141,7 +145,7 @@ def run(tier, replay=None):
         # spec-selected classes first: journal entry seen but not yet removed, fork
         # expansion, between a fork's _outs and _complete, submit, lock
         cls = [i + 1 for i, e in enumerate(mine)
-               if e["ev"] in ("JournalSeen", "JournalRemove", "ForkAdded", "Submit", "Uniquify", "MdReset")
+               if e["ev"] in ("JournalSeen", "JournalRemove", "ForkAdded", "Submit", "Uniquify", "MdReset", "OutMoved", "OutLinked")
                or (e["ev"] == "MdWrite" and e.get("name") in ("outs", "complete", "jobinfo", "queued_locally", "stage_defs"))]
         rng.shuffle(cls)
         rng.shuffle(ks)
